@@ -95,6 +95,53 @@ theorem scalar_and_mul_programs_refine (h : Store) (a b : Nat) (x y : Model) (q 
     (exec h (progMulSame a b h.length)).map (fun h' => h'[h.length]?) = (mMul x y).map some :=
   ⟨exec_scale h a x q ha, exec_addNum h a x q ha, exec_rsubNum h a x q ha, exec_mulSame h a b x y ha hb hcls hd⟩
 
+/-- the promoting `+` programs (`BQM+BQM` of different vartypes, `BQM+QM`, `QM+BQM`) compute `mAdd` -/
+theorem add_promoting_programs_refine (h : Store) (a b : Nat) (x y : Model) (ha : h[a]? = some x) (hb : h[b]? = some y) :
+    (x.isQM = false → y.isQM = false → bqmDiffer x y = true →
+      (exec h (progAddPromoteBoth a b h.length)).map (fun h' => h'[h.length]?) = (mAdd x y).map some) ∧
+    (x.isQM = false → y.isQM = true →
+      (exec h (progAddPromoteLeft a b h.length)).map (fun h' => h'[h.length + 1]?) = (mAdd x y).map some) ∧
+    (x.isQM = true → y.isQM = false →
+      (exec h (progAddPromoteRight a b h.length)).map (fun h' => h'[h.length]?) = (mAdd x y).map some) :=
+  ⟨exec_addPromoteBoth h a b x y ha hb, exec_addPromoteLeft h a b x y ha hb, exec_addPromoteRight h a b x y ha hb⟩
+
+/-- all `-` programs compute `mSub` -/
+theorem sub_programs_refine (h : Store) (a b : Nat) (x y : Model) (ha : h[a]? = some x) (hb : h[b]? = some y) :
+    (x.isQM = true → y.isQM = true →
+      (exec h (progSubSame a b h.length)).map (fun h' => h'[h.length]?) = (mSub x y).map some) ∧
+    (x.isQM = false → y.isQM = false → bqmDiffer x y = false →
+      (exec h (progSubSame a b h.length)).map (fun h' => h'[h.length]?) = (mSub x y).map some) ∧
+    (x.isQM = false → y.isQM = false → bqmDiffer x y = true →
+      (exec h (progSubPromoteBoth a b h.length)).map (fun h' => h'[h.length]?) = (mSub x y).map some) ∧
+    (x.isQM = false → y.isQM = true →
+      (exec h (progSubPromoteLeft a b h.length)).map (fun h' => h'[h.length + 1]?) = (mSub x y).map some) ∧
+    (x.isQM = true → y.isQM = false →
+      (exec h (progSubPromoteRight a b h.length)).map (fun h' => h'[h.length + 1]?) = (mSub x y).map some) :=
+  ⟨exec_subSameQM h a b x y ha hb, exec_subSameBQM h a b x y ha hb, exec_subPromoteBoth h a b x y ha hb,
+   exec_subPromoteLeft h a b x y ha hb, exec_subPromoteRight h a b x y ha hb⟩
+
+/-- the promoting `*` programs compute `mMul` -/
+theorem mul_promoting_programs_refine (h : Store) (a b : Nat) (x y : Model) (ha : h[a]? = some x) (hb : h[b]? = some y) :
+    (x.isQM = false → y.isQM = true →
+      (exec h (progMulPromoteLeft a b h.length)).map (fun h' => h'[h.length + 1]?) = (mMul x y).map some) ∧
+    (x.isQM = true → y.isQM = false →
+      (exec h (progMulPromoteRight a b h.length)).map (fun h' => h'[h.length + 1]?) = (mMul x y).map some) ∧
+    (x.isQM = false → y.isQM = false → bqmDiffer x y = true → (x.isLinear = true ∧ y.isLinear = true) →
+      (exec h (progMulPromoteBoth a b h.length)).map (fun h' => h'[h.length + 2]?) = (mMul x y).map some) :=
+  ⟨exec_mulPromoteLeft h a b x y ha hb, exec_mulPromoteRight h a b x y ha hb, exec_mulPromoteBoth h a b x y ha hb⟩
+
+/-- a variable-free BQM as LEFT operand of the opposite vartype promotes (`other.num_variables` is what
+    counts, not `self.num_variables`): `BQM('BINARY') + Spin('s')` is a QM in which `s` is still SPIN;
+    as RIGHT operand it does not: `Spin('s') + BQM('BINARY')` stays a SPIN BQM -/
+theorem empty_bqm_promotion :
+    (match build (.add (.empty .binary 3) (.var .spin (.str "s") 1 none none)) with
+     | .ok (.mdl m) => m.isQM && (m.vars.map fun v => decide (v.info.vt = .spin)) == [true] | _ => false) = true ∧
+    (match build (.add (.var .spin (.str "s") 1 none none) (.empty .binary 3)) with
+     | .ok (.mdl m) => !m.isQM && decide (m.bvt = .spin) && decide (m.off = 3) | _ => false) = true ∧
+    (match build (.mul (.empty .binary 3) (.var .spin (.str "s") 1 none none)) with
+     | .ok (.mdl m) => m.isQM && (m.vars.map fun v => decide (v.info.vt = .spin)) == [true] | _ => false) = true := by
+  refine ⟨?_, ?_, ?_⟩ <;> decide +kernel
+
 /-! ## non-vacuity: concrete trees evaluated by the model -/
 
 /-- `(2x + 1) * (x + 3y)` over binary `x, y` is `3x + 3y + 6xy` -/
